@@ -98,8 +98,8 @@ def check_capacity_tests(A, rep):
                 continue
             done.add(c.qualname)
             for st in c.node.body:
-                if not (isinstance(st, ast.FunctionDef) and st.name in ("__enter__", "__exit__", "__call__")):
-                    continue
+                if not isinstance(st, ast.FunctionDef):
+                    continue  # every method of the context class: the steps may live in private helpers
                 for n in ast.walk(st):
                     if isinstance(n, (ast.If, ast.IfExp)):
                         arms = (n.body if isinstance(n.body, list) else [n.body]) + (n.orelse if isinstance(n.orelse, list) else [n.orelse])
@@ -120,7 +120,7 @@ def check_capacity_tests(A, rep):
                                      "buffered above the requested bound and a saved capacity of 0 is never restored", [f"{c.module.path}:{n.lineno}: if {ast.unparse(n.test)}"], where)
                         else:
                             rep.ok("C15.g", f"C15.g {where}: `{ast.unparse(n.test)}` - form not recognised, not decided")
-    rep.floor("capacity install/restore tests", n_tests, 2)
+    rep.floor("capacity install/restore tests", n_tests, 1)
 
 
 class _Rename:
